@@ -1,6 +1,7 @@
 """C18 — KVS multi-put is atomic, durable and read-your-writes."""
 import os
 import seqlib
+import crashlib
 import vlib
 from vlib import Break
 
@@ -38,6 +39,8 @@ def run(ctx):
                                            "trace_prefix": seqlib.context_before(lines, m[-1], contains=True)})
                 except Break as b:
                     ctx.breaks.append(b)
+    if ok_go:
+        crashlib.run_small(ctx, ok_drv, "crashkv", "C18", ["-workloads", "12", "-ops", "60", "-images", "1000"] if ctx.tier == "thorough" else ["-workloads", "4", "-ops", "40", "-images", "300"])
     vlib.finish(
         ctx, "proof",
         "theorems: a MultiPut installs all of its pairs (last occurrence of a key winning) or changes nothing; a successful one is ONE journal transaction of whole-block "
@@ -46,4 +49,5 @@ def run(ctx):
         "sequences of MultiPut (1..64 pairs, overlapping keys, duplicates inside one put; 511, 512 and 600 distinct blocks) and Get over keys at LOGSIZE-1, LOGSIZE, sz-1, sz, "
         "sz+1, 0, 2^40 and random; every result (value / refused / panic) compared",
         ["values are whole blocks identified by a fill byte and a counter"],
-        pending=["crash atomicity/durability on recorded disk traces (needs the WAL model M9)", "multiput_linearizable for concurrent callers"])
+        pending=["multiput_linearizable for concurrent callers"],
+        partial=["crash atomicity/durability: theorems of C01 on the WAL model + recorded-trace validation + prefix-state oracle (all pairs of a put or none; acknowledged puts survive) on sampled crash images, recovered by kvs.MkKVS"])
